@@ -252,7 +252,10 @@ class ControlledOperation(raw_types.Operation):
             if self.control_values.is_trivial:
                 if self == self.sub_operation.controlled_by(*self.controls):
                     qubit_args = ', '.join(repr(q) for q in self.controls)
-                    return f'{self.sub_operation!r}.controlled_by({qubit_args})'
+                    sub_repr = repr(self.sub_operation)
+                    if sub_repr.startswith('-'):
+                        sub_repr = f'({sub_repr})'  # unary minus binds weaker than the call
+                    return f'{sub_repr}.controlled_by({qubit_args})'
         return (
             f'cirq.ControlledOperation('
             f'sub_operation={self.sub_operation!r},'
